@@ -17,6 +17,8 @@ def run(rep, tier):
     rep.rule("C-scan", "delimiter scans over raw text cannot match inside an escaped payload (constructive test)")
     rep.not_decided.append("that the regex/offset parsers invert the emitters for every Unicode label (a language-inverse question about two programs)")
     rep.not_decided.append("float(repr(x)) == x (CPython guarantee, trusted); file-system and codec behaviour")
+    rep.rule("W-doc", "both text emitters interpreted on generic textgrids (symbolic times, labels and names): an independent reader written from Praat's text-file specification (free-standing numbers, quoted strings with doubled quotes, flags; all else comment) recovers every name, class, span, declared size, time and label in order")
+    R.rule_written_document(rep, tier)
     R.rule_escape_emit(rep)
     R.rule_unescape_read(rep)
     R.rule_label_regex(rep)
